@@ -141,6 +141,8 @@ type zzStmt struct {
 	cases []zzCase
 	// elseIf prints `else if` instead of `else { if }`
 	elseIf bool
+	// spellFor prints a while loop with the keyword `for` (a synonym)
+	spellFor bool
 }
 
 type zzFunc struct {
@@ -203,7 +205,11 @@ func (s *zzStmt) text(ind string) string {
 		}
 		return out + "\n"
 	case sWhile:
-		return ind + "while (" + s.e.text() + ") {\n" + zzBlock(s.body, ind+"  ") + ind + "}\n"
+		kw := "while"
+		if s.spellFor {
+			kw = "for"
+		}
+		return ind + kw + " (" + s.e.text() + ") {\n" + zzBlock(s.body, ind+"  ") + ind + "}\n"
 	case sForeach:
 		h := ind + "foreach "
 		if s.idx != "" {
